@@ -28,9 +28,16 @@ type replayT struct {
 // modelCfg: which of the two admissible behaviours (unchanged / repaired) the real server shows,
 // found by three probes; the Lean model is switched accordingly (the model follows the code).
 type modelCfg struct {
-	peek      string // "128" or "-"
-	nullNil   int
-	silentNot int
+	peek        string // "128" or "-"
+	nullNil     int
+	silentNot   int
+	internalErr int // a failing handler is answered -32603
+	legalID     int // an Invalid Request answer echoes only string / number ids
+	nullRule    int // null argument = "not given" (4d3f28e)
+}
+
+func (c modelCfg) String() string {
+	return fmt.Sprintf("%s %d %d %d %d %d", c.peek, c.nullNil, c.silentNot, c.internalErr, c.legalID, c.nullRule)
 }
 
 // handleReal: like handle, for a server whose handlers are juno's own (nothing is recorded)
@@ -61,6 +68,30 @@ func (w *World) handleWith(ctx context.Context, rd io.Reader) Obs {
 	}
 	o.Calls, o.RecErrs = w.taken()
 	return o
+}
+
+// familyFloors: a family that silently lost (most of) its work is a failure of the harness
+func (rn *runner) familyFloors() {
+	floors := map[string]int{"transport:http": 300, "transport:ws": 300, "transport:ws-session": 80, "transport:http-faulty": 10,
+		"transport:ws-faulty": 3, "segmented:HandleReader": 1500, "segmented:http-chunked": 15, "segmented:ws-fragments": 25,
+		"deadline:HandleReader": 8, "deadline:http": 4, "deadline:ws": 4, "real-table:v0_8:inputs": 100, "real-table:v0_9:inputs": 100,
+		"real-table:v0_10:inputs": 100, "validator:values": 1000, "f64:%f": 1000, "f64:%e": 1000, "pretty:caret": 3000,
+		"oracle:entry:call": 20000, "oracle:entry:notification": 5000, "oracle:bind:ok": 10000, "shadow:requests": 3000,
+		"concurrent:requests": 150, "output:has result": 2000}
+	counts := rn.res.Distribution
+	for k, min := range floors {
+		if counts[k] < min {
+			rn.res.Fatalf("family %q ran %d times, fewer than its floor %d", k, counts[k], min)
+		}
+	}
+}
+
+func flushStats(res *lib.Result) {
+	statMu.Lock()
+	defer statMu.Unlock()
+	for k, v := range stats {
+		res.HitN(k, v)
+	}
 }
 
 func firstLines(s string, n int) string {
@@ -94,7 +125,24 @@ func probe() (modelCfg, []string) {
 	if isArr(128) && isArr(129) && isArr(5000) {
 		c.peek = "-"
 	}
-	notes = append(notes, fmt.Sprintf("model configuration from probes: peekLimit=%s nullForNilResult=%d silentNotificationErrors=%d", c.peek, c.nullNil, c.silentNot))
+	// a handler failure is answered with -32603 instead of costing the response
+	if fw, err := NewWorld(faultyWorld(2)); err == nil {
+		o1 := fw.handle([]byte(`{"jsonrpc":"2.0","method":"nan","id":1}`))
+		o2 := fw.handle([]byte(`{"jsonrpc":"2.0","method":"boom","id":1}`))
+		if strings.Contains(string(o1.Out), "-32603") && strings.Contains(string(o2.Out), "-32603") && !o2.Panicked && o1.Err == nil {
+			c.internalErr = 1
+		}
+	}
+	o = w.handle([]byte(`{"jsonrpc":"1.0","id":[1]}`))
+	if strings.Contains(string(o.Out), `"id":null`) {
+		c.legalID = 1
+	}
+	o = w.handle([]byte(`{"jsonrpc":"2.0","method":"echo","params":[null],"id":1}`))
+	o2 = w.handle([]byte(`{"jsonrpc":"2.0","method":"echo","params":{"a":1,"b":null},"id":1}`))
+	if strings.Contains(string(o.Out), "-32602") && strings.Contains(string(o2.Out), `"result"`) {
+		c.nullRule = 1
+	}
+	notes = append(notes, "model configuration from probes (peekLimit nullForNilResult silentNotificationErrors internalErrorOnHandlerFailure legalIdEchoOnly nullNotGiven): "+c.String())
 	return c, notes
 }
 
@@ -110,7 +158,7 @@ func (rn *runner) setWorld(w *World) error {
 	if w.Spec.BatchDisabled {
 		bd = 1
 	}
-	a, err := rn.drv.Ask(fmt.Sprintf("cfg %d %s %d %d", bd, rn.cfg.peek, rn.cfg.nullNil, rn.cfg.silentNot))
+	a, err := rn.drv.Ask(fmt.Sprintf("cfg %d %s", bd, rn.cfg.String()))
 	if err != nil || a != "ok" {
 		return fmt.Errorf("driver cfg: %q %v", a, err)
 	}
@@ -222,8 +270,13 @@ func compare(answer string, o Obs, batchShaped bool) string {
 		return ""
 	}
 	mt, rest, err := fromTokens(strings.Fields(answer))
-	if err != nil || len(rest) != 0 || mt.K != '[' || len(mt.A) != 2 {
+	if err != nil || len(rest) != 0 || mt.K != '[' || len(mt.A) < 2 {
 		return "driver answer unreadable: " + answer
+	}
+	if len(mt.A) == 3 && len(mt.A[2].A) == 2 { // [goError, panicked]
+		if mGo, mPanic := mt.A[2].A[0].K == 't', mt.A[2].A[1].K == 't'; mGo != (o.Err != nil) || mPanic != o.Panicked {
+			return fmt.Sprintf("failure flags differ: model goError=%v panicked=%v, implementation goError=%v panicked=%v", mGo, mPanic, o.Err != nil, o.Panicked)
+		}
 	}
 	var mbody *J
 	if len(mt.A[0].A) == 1 {
@@ -372,12 +425,12 @@ func (rn *runner) check(w *World, input []byte, answer string, tree *J, parses b
 	if answer == "dk" {
 		res.Hit("model:dont-know")
 	}
-	if strings.HasPrefix(answer, "bad-op") {
-		res.Mismatch(lib.Mismatch{Sig: "driver-rejects-input", Input: describe(input), Model: answer})
+	if strings.HasPrefix(answer, "bad-op") || answer == "" {
+		res.Fatalf("driver answered %q to an input line: %s", answer, describe(input))
 		return o.Out
 	}
 	res.Compared(1)
-	if why := compare(answer, o, parses && tree.K == '['); why != "" && !o.Hung && !o.Panicked {
+	if why := compare(answer, o, parses && tree.K == '['); why != "" && !o.Hung {
 		if len(why) > 1500 {
 			why = why[:1500]
 		}
@@ -408,7 +461,7 @@ func (rn *runner) check(w *World, input []byte, answer string, tree *J, parses b
 func (rn *runner) runWorld(spec WorldSpec, inputs [][]byte) error {
 	w, err := NewWorld(spec)
 	if err != nil {
-		rn.res.Note("world: %v", err)
+		rn.res.Fatalf("world: %v", err)
 		return err
 	}
 	if err := rn.setWorld(w); err != nil {
@@ -424,6 +477,9 @@ func (rn *runner) runWorld(spec WorldSpec, inputs [][]byte) error {
 	if err != nil {
 		return err
 	}
+	if len(answers) != len(lines) {
+		return fmt.Errorf("driver answered %d of %d lines", len(answers), len(lines))
+	}
 	outs := make([][]byte, len(inputs))
 	for i, in := range inputs {
 		outs[i] = rn.check(w, in, answers[i], trees[i], parses[i])
@@ -436,9 +492,13 @@ func main() {
 	f := lib.ParseFlags()
 	res := lib.NewResult("inputs = byte strings sent to jsonrpc.Server.HandleReader (and, in the transport part, through " +
 		"jsonrpc.HTTP / jsonrpc.Websocket); non-trivial = distinct input whose first JSON value parses and is an object or an array")
+	if os.Getenv("C11_MODE") == "conc" { // child of the thorough tier, built with -race
+		concurrentStage(res, f.Seed, false)
+		lib.Finish(f, res)
+	}
 	drv, err := lib.StartDriver(f.Driver)
 	if err != nil {
-		res.Note("driver: %v", err)
+		res.Fatalf("driver: %v", err)
 		lib.Finish(f, res)
 	}
 	defer drv.Close()
@@ -447,6 +507,7 @@ func main() {
 		res.Note("%s", n)
 	}
 	rn := &runner{f: f, res: res, drv: drv, cfg: cfg}
+	oracleNullRule = cfg.nullRule == 1
 
 	if one := os.Getenv("C11_INPUT"); one != "" { // developer aid: one input on the fixed world, verbose
 		spec := fixedWorld(os.Getenv("C11_NOBATCH") != "", 4)
@@ -470,12 +531,12 @@ func main() {
 			err = json.Unmarshal(b, &file)
 		}
 		if err != nil {
-			res.Note("replay: %v", err)
+			res.Fatalf("replay: %v", err)
 			lib.Finish(f, res)
 		}
 		in, _ := hex.DecodeString(file.Replay.InputHex)
 		if err := rn.runWorld(file.Replay.World, [][]byte{in}); err != nil {
-			res.Note("replay: %v", err)
+			res.Fatalf("replay: %v", err)
 		}
 		if file.Replay.Via != "" {
 			if w, err := NewWorld(file.Replay.World); err == nil {
@@ -524,6 +585,14 @@ func main() {
 			jobs = append(jobs, job{spec, randomInputs(uint64(i*100000+c), min(chunk, n-c*chunk))})
 		}
 	}
+	// 1b. handlers that return unmarshallable values or panic
+	for i, pool := range []int{1, 3} {
+		spec := faultyWorld(pool)
+		stream := uint64(900000 + i)
+		jobs = append(jobs, job{spec, func(w *World) [][]byte {
+			return append(append(corpus(w), faultyInputs()...), randomInputs(stream, f.Scale(600, 6000))(w)...)
+		}})
+	}
 	// 2. random tables
 	nWorlds := f.Scale(40, 600)
 	per := f.Scale(250, 600)
@@ -555,7 +624,7 @@ func main() {
 				}
 				w, err := NewWorld(j.spec)
 				if err != nil {
-					res.Note("world rejected: %v", err)
+					res.Fatalf("world rejected: %v", err)
 					continue
 				}
 				first = wr.runWorld(j.spec, j.inputs(w))
@@ -569,12 +638,13 @@ func main() {
 	close(jobc)
 	for k := 0; k < workers; k++ {
 		if err := <-errc; err != nil {
-			res.Note("run aborted: %v", err)
+			res.Fatalf("run aborted: %v", err)
 			res.Mismatch(lib.Mismatch{Sig: "harness-run-aborted", Model: err.Error()})
 		}
 	}
 	// 3. the method tables juno serves; the validator; the model's default configuration
 	rn.realTables()
+	rn.shadowTables(r.Fork(2718))
 	rn.validatorTie()
 	rn.floatTie(r.Fork(31337))
 	// 4. transports
@@ -591,5 +661,14 @@ func main() {
 	}
 	// 5. request deadlines while batch entries queue for a pool slot
 	rn.deadlines(r.Fork(777))
+	// 6. handlers that fail, over the transports
+	rn.faultyTransports()
+	// 7. concurrent clients on one server (thorough: again under the race detector)
+	concurrentStage(res, f.Seed, f.Thorough())
+	if f.Thorough() {
+		raceChild(res, f)
+	}
+	flushStats(res)
+	rn.familyFloors()
 	lib.Finish(f, res)
 }
